@@ -183,6 +183,20 @@ def run(ctx, impl_only=False):
     n = 1200 if ctx.thorough() else 160
     pairs = FAM.gen_pairs(ctx, n, bytes_=False)
     pairs += FAM.rich_pairs(ctx, n // 5)
+    # flat sequences of scalars of every documented kind with two or three changes (both passes of the ordered comparison run),
+    # and the same member entering / leaving two different sets
+    leaves = FAM.rich_leaves()
+    for _ in range(n // 4):
+        xs = [copy.deepcopy(ctx.rng.choice(leaves)) for _ in range(ctx.rng.randint(3, 7))]
+        xs = [x for x in xs if not isinstance(x, frozenset)]
+        ys = list(xs)
+        for _k in range(ctx.rng.randint(2, 3)):
+            if ys:
+                ys[ctx.rng.randrange(len(ys))] = copy.deepcopy(ctx.rng.choice([l for l in leaves if not isinstance(l, frozenset)]))
+        w = ctx.rng.choice([lambda v: v, lambda v: tuple(v), lambda v: {'k': v, 'z': 1}, lambda v: [0, v]])
+        pairs.append((w(xs), w(ys)))
+    pairs += [({'a': {1, 2}, 'b': {1, 2}}, {'a': {1, 2, 3}, 'b': {1, 2, 3}}), ({'a': {1, 2, 3}, 'b': {2, 3}}, {'a': {1, 2}, 'b': {2}}),
+              ([{'x', 'y'}, {'x'}], [{'x', 'y', 'z'}, {'x', 'z'}]), ({'p': frozenset({1}), 'q': frozenset({1, 5})}, {'p': frozenset({1, 7}), 'q': frozenset({1, 5, 7})})]
     reqs = []
     for (t1, t2) in pairs:
         for io, rep in ((False, False), (True, False), (True, True)):
@@ -232,6 +246,10 @@ def run(ctx, impl_only=False):
                     changes = sum(len(ls) for c, ls in tree.items() if hasattr(ls, '__len__') and c != 'deep_distance')
                     if stm != changes:
                         ctx.violate(case, 'pretty() has %d statements for %d changes' % (stm, changes))
+                    if vb >= 1:
+                        in_text = sum(len(v) for c, v in text.items() if c != 'deep_distance' and hasattr(v, '__len__'))
+                        if stm != in_text:
+                            ctx.violate(case, 'pretty() has %d statements, the text view %d changes' % (stm, in_text))
                 except Exception as e:
                     ctx.violate(case, 'pretty() raised %s' % type(e).__name__)
                 if not io and vb >= 1 and FAM.in_universe(t1, t2) and not impl_only:
